@@ -1586,6 +1586,17 @@ def run_c05(ctx):
                 t2 = r
         cases.append(ctx.case("grammar", t2, cfg, meta={"marks": idx}))
 
+    # the witnesses of the listed C05 findings carry their own marks: [substring whose first character is marked, depth, kind]
+    from . import findings as _f5
+    for fid, text, cfg, cursors, w in _f5.witness_inputs("C05"):
+        wm = []
+        for sub, depth, kind in w.get("marks", []):
+            off = text.find(sub)
+            if off >= 0:
+                wm.append((nonblank_index(text, off), depth, kind))
+        if wm:
+            cases.append(ctx.case("witness-" + fid, text, tuple(cfg) if cfg else gen.DEFAULT_CFG, meta={"marks": wm, "witness": fid}))
+
     def oracle(r):
         c = r.case
         try:
@@ -1608,7 +1619,7 @@ def run_c05(ctx):
             if lead.strip(" \t") != "":
                 ctx.fail("statement_not_on_own_line", c, "%s at depth %d does not start its line: %r" % (kind, depth, out[ls:pos + 15]), observed=r.out.hex()[:3000])
                 return
-            if lead != unit * depth:
+            if kind != "ownline" and lead != unit * depth:
                 ctx.fail("statement_wrong_indentation", c, "%s at depth %d is indented by %r, expected %d units of %r: %r" % (kind, depth, lead, depth, unit, out[ls:pos + 15]), observed=r.out.hex()[:3000])
                 return
 
@@ -2323,7 +2334,13 @@ def run_c19(ctx):
     bad_cases = [(["-C", "no_such_key=1"], None), (["-C", "wrap_column=abc"], None), (["-C", "tab_width=300"], None), (["-C", "tab_width=-1"], None),
                  (["-C", "begin_style=sometimes"], None), (["-C", "use_tabs=maybe"], None), (["-C", "line_ending=cr"], None), (["-C", "encoding=no-such-enc"], None),
                  (["--config-file", os.path.join(rd, "missing.toml")], None), (["--config-file", rd], None),
+                 # --config-file must be a REGULAR file: a character device and a symbolic link to one are not
+                 (["--config-file", "/dev/null"], None), (["--config-file", os.path.join(rd, "null_link.toml")], None),
                  ([], "unknown_key = 1\n"), ([], "wrap_column = \"wide\"\n"), ([], "[section]\nwrap_column = 1\n"), ([], "wrap_column = 1\nwrap_column = 2\n")]
+    try:
+        os.symlink("/dev/null", os.path.join(rd, "null_link.toml"))
+    except OSError:
+        pass
     for args, filetext in bad_cases:
         open(victim, "wb").write(b"begin  end.")
         cfgp = os.path.join(rd, "pasfmt.toml")
@@ -2339,6 +2356,23 @@ def run_c19(ctx):
             ctx.fail("invalid_config_accepted", case, "invalid configuration %r / %r exited 0" % (args, filetext))
         if open(victim, "rb").read() != b"begin  end.":
             ctx.fail("invalid_config_touched_file", case, "a file was modified although the configuration was rejected")
+    # ill-typed values of the kinds the `config` crate coerces (finding F35): a bool or a float for an integer key, a
+    # word or a number for a bool key, a one-key table for an enum key
+    LENIENT = [([], "wrap_column = true\n"), ([], "wrap_column = 80.6\n"), (["-C", "wrap_column=yes"], None), (["-C", "tab_width=on"], None),
+               ([], 'use_tabs = "on"\n'), ([], "use_tabs = 1\n"), (["-C", "use_tabs=1"], None), (["-C", "line_ending.crlf=zzz"], None), ([], "continuation_indents = 2.0\n")]
+    for args, filetext in LENIENT:
+        open(victim, "wb").write(b"begin  end.")
+        cfgp = os.path.join(rd, "pasfmt.toml")
+        if filetext is not None:
+            open(cfgp, "w").write(filetext)
+        elif os.path.exists(cfgp):
+            os.remove(cfgp)
+        rc, so, se = cli.run(args + [victim], rd)
+        ctx.count("rejection_cases")
+        case = ctx.case("reject-coercible", "args=%r file=%r" % (args, filetext), gen.DEFAULT_CFG)
+        ctx.note_case(case)
+        if rc == 0:
+            ctx.fail("invalid_config_accepted", case, "ill-typed value %r / %r exited 0" % (args, filetext), value_class="coercible")
     ctx.hypotheses["clap / toml / serde / config crate behaviour"] = "the binary run from nested working directories; options split arbitrarily between file, --config-file and -C"
 
 
